@@ -99,6 +99,23 @@ def vec_kind(r, n, kind):
         for _ in range(n):
             q = r.normal(size=2) + 1j * r.normal(size=2)
             v = np.kron(v, q / np.linalg.norm(q))
+    elif kind == "npint":
+        # integer ndarray (np.int64 entries are np.number but not int/float/complex: second branch of validate_parameter)
+        v = np.zeros(d, dtype=np.int64)
+        v[r.integers(d)] = 1
+        return v
+    elif kind == "f32":
+        # float32 ndarray, uniform over a power-of-four number of entries so that the norm is exactly 1 in float32
+        cnt = 4 ** (n // 2) if n >= 2 else 1
+        v = np.zeros(d, dtype=np.float32)
+        v[r.choice(d, size=cnt, replace=False)] = np.float32(1.0 / math.sqrt(cnt))
+        return v
+    elif kind == "list":
+        # plain Python list with int, float and complex entries: the caller's list must stay as it is
+        a, b = sorted(int(i) for i in r.choice(d, size=2, replace=False))
+        v = [0] * d
+        v[a], v[b] = 0.6, 0.8j
+        return v
     else:
         v = np.ones(d, dtype=complex)
     v = v / np.linalg.norm(v)
@@ -248,13 +265,15 @@ class Dense(Spec):
 
     def inputs(self, p, r):
         v = vec_kind(r, p["n"], p.get("vec", "haar"))
-        if p.get("offnorm"):
+        if p.get("offnorm") and isinstance(v, np.ndarray) and v.dtype.kind in "fc" and v.dtype.itemsize >= 8:
             # inside the accepted tolerance (1e-10) but not exactly normalised: an in-place
             # renormalisation of the caller's array changes its bytes
             v = v * (1 + 2e-12)
         kw = {}
         if p.get("opt") is not None:
             kw["opt_params"] = copy.deepcopy(p["opt"])
+        if p.get("label") is not None:
+            kw["label"] = p["label"]
         return [v], kw
 
     def width_op(self, p):
@@ -283,8 +302,10 @@ class Mixed(Spec):
         return _imp("qclib.state_preparation.mixed", "MixedInitialize")
 
     def inputs(self, p, r):
-        ens = [vec_kind(r, p["n"], "haar") for _ in range(p["k"])]
+        ens = [vec_kind(r, p["n"], p.get("vec", "haar")) for _ in range(p["k"])]
         kw = {"reset": p.get("reset", True), "classical": p.get("classical", True)}
+        if p.get("label") is not None:
+            kw["label"] = p["label"]
         if p.get("probs"):
             pr = r.uniform(0.1, 1.0, size=p["k"])
             kw["probabilities"] = list((pr / pr.sum()).tolist())
@@ -323,6 +344,8 @@ class Sparse(Spec):
         kw = {}
         if p.get("opt") is not None:
             kw["opt_params"] = copy.deepcopy(p["opt"])
+        if p.get("label") is not None:
+            kw["label"] = p["label"]
         return [d], kw
 
     def width_op(self, p):
@@ -337,7 +360,14 @@ class FnPoints(Sparse):
         keys = [int(k) for k in r.permutation(r.choice(2 ** n, size=m, replace=False))]
         nout = p.get("nout", 3)
         d = {format(k, f"0{n}b"): int(r.integers(nout)) for k in keys}
-        return [d], {"opt_params": {"n_output_values": nout}}
+        how = p.get("fnopt", "given")
+        if how != "given":
+            # n_output_values left at its default (max value - 1): keep the maximum at 2 so that the default is >= 1
+            d[format(keys[0], f"0{n}b")] = 2
+        kw = {"opt_params": {"n_output_values": nout}} if how == "given" else ({"opt_params": {}} if how == "empty" else {})
+        if p.get("label") is not None:
+            kw["label"] = p["label"]
+        return [d], kw
 
 
 class GateSpec(Spec):
@@ -631,6 +661,8 @@ def run_inverse(ctx, case):
     relabel_ok = True
     if spec.kind != "gate":
         relabel_ok = isinstance(inv.label, str) and inv.label == (lab or "") + "_dg" and gate.label == lab
+        if kw.get("label") is not None and lab != kw["label"]:
+            relabel_ok = False       # an explicit label must be the gate's label
     if max(e1, e2) > TOL:
         ctx.fail(key, f"{spec.name}: definition . inverse().definition differs from identity by {e1:.3e} / {e2:.3e}", case)
     elif e3 > TOL:
@@ -712,7 +744,12 @@ def fn_call(name, p, r):
         return unitary, [haar_unitary(r, 2 ** n)], {"decomposition": p.get("scheme", "qsd")}
     if name == "unitary.cnot_count":
         from qclib.unitary import cnot_count
-        return cnot_count, [haar_unitary(r, 2 ** n)], {"decomposition": p.get("scheme", "qsd"), "method": "exact"}
+        kw = {"decomposition": p.get("scheme", "qsd"), "method": p.get("method", "exact")}
+        if "iso" in p:
+            kw["iso"] = p["iso"]
+        if "a2" in p:
+            kw["apply_a2"] = p["a2"]
+        return cnot_count, [haar_unitary(r, 2 ** n)], kw
     if name == "isometry.decompose":
         from qclib.isometry import decompose
         q = haar_unitary(r, 2 ** n)[:, : 2 ** p.get("mcols", 0)]
@@ -723,7 +760,8 @@ def fn_call(name, p, r):
     if name == "isometry.cnot_count":
         from qclib.isometry import cnot_count
         q = haar_unitary(r, 2 ** n)[:, : 2 ** p.get("mcols", 0)]
-        return cnot_count, [np.ascontiguousarray(q)], {"scheme": p.get("scheme", "ccd"), "method": "exact"}
+        q = np.ascontiguousarray(q[:, 0]) if p.get("vector") else np.ascontiguousarray(q)
+        return cnot_count, [q], {"scheme": p.get("scheme", "ccd"), "method": p.get("method", "exact")}
     if name == "schmidt_decomposition":
         from qclib.entanglement import schmidt_decomposition
         part = p.get("part") or list(range((n + 1) // 2))
@@ -734,7 +772,12 @@ def fn_call(name, p, r):
             {"strategy": p.get("strategy", "greedy"), "use_low_rank": p.get("lr", False)}
     if name == "lowrank.cnot_count":
         from qclib.state_preparation.lowrank import cnot_count
-        return cnot_count, [vec_kind(r, n, "haar")], {}
+        kw = {}
+        if "lr" in p:
+            kw["low_rank"] = p["lr"]
+        if "part" in p:
+            kw["partition"] = list(p["part"])
+        return cnot_count, [vec_kind(r, n, p.get("vec", "haar"))], kw
     if name == "schmidt_composition":
         from qclib.entanglement import schmidt_decomposition, schmidt_composition
         part = list(range((n + 1) // 2))
@@ -1335,6 +1378,136 @@ def oracle_cases(ctx):
     return cases
 
 
+# ---- generator-quality audit: inputs chosen for the branches of the anchored files the sweep above does not take
+
+UNREACHED_JUSTIFIED = {
+    "qclib/gates/initialize.py:47": "raise for a length that is not a positive power of two: invalid input, C16",
+    "qclib/gates/initialize.py:51": "raise for a vector off the unit norm: invalid input, C16",
+    "qclib/gates/initialize.py:61": "raise for a parameter that is not a number: invalid input",
+    "qclib/gates/initialize_sparse.py:49": "raise for a key that is not a binary string: invalid input",
+    "qclib/gates/initialize_sparse.py:53": "raise for params that are not a dictionary: invalid input (the one negative "
+                                           "test of the library covers it)",
+    "qclib/gates/initialize_mixed.py:21 initialize": "body-less base-class stub (`pass`), overridden by MixedInitialize; "
+                                                     "no caller reaches it",
+    "qclib/gates/initialize_mixed.py:41": "raise for a parameter that is not a number: invalid input",
+    "qclib/state_preparation/merge.py:410->427": "real/real operand pair of _compute_angles: the constructor turns every "
+                                                 "amplitude into a complex, the pair only arises from intermediate norms for "
+                                                 "pre-screened key sets; C06 owns that generator (operand-kind families)",
+    "qclib/state_preparation/pivot.py:163->168": "no differing target bit between the pivoted indices (data-dependent step of "
+                                                 "the pivoting algorithm): C06",
+    "qclib/state_preparation/pivot.py:229->237": "no free index among the first 2^s (data-dependent): C06",
+    "qclib/state_preparation/cvoqram.py:88->97": "the loading loop always leaves through `break` on the last pattern; it is "
+                                                 "exhausted only for an empty dictionary (rejected earlier)",
+    "qclib/unitary.py:45": "raise for a non-square / non power-of-two matrix: invalid input, C16",
+    "qclib/unitary.py:47": "raise for a non-unitary matrix: invalid input, C16",
+    "qclib/unitary.py:212->214 _closest_unitary": "degenerate spectrum of the demultiplexing step (eigenvectors returned "
+                                                  "non-orthogonal): numerical branch of the synthesis, C02",
+    "qclib/unitary.py:381->416": "QR scheme: no wire differs in the required direction (data-dependent): C02",
+    "qclib/isometry.py:75": "raise: row count not a power of two, invalid input, C16",
+    "qclib/isometry.py:79": "raise: column count not a power of two, invalid input, C16",
+    "qclib/isometry.py:83": "raise: more columns than rows, invalid input, C16",
+    "qclib/isometry.py:85": "raise: columns not orthonormal, invalid input, C16",
+    "qclib/isometry.py:105": "raise: Knill scheme on one qubit, rejected by design (noted in the run notes)",
+    "qclib/isometry.py:301->315": "zero leading column inside the column-by-column decomposition (data-dependent): C03",
+}
+
+
+def branch_cases(ctx):
+    """Cases for branches that depend on HOW the caller passes the input rather than on its size: an explicit `label`
+    (inverse must relabel it), integer / float32 ndarrays and plain lists (second branch of validate_parameter; the
+    caller's object must stay untouched), vectors with zero amplitudes (UCG's identity / diagonal operators), option
+    dictionaries that leave the width-relevant key at its default, FnPointsInitialize without n_output_values, and the
+    estimate branches of the three cnot_count functions (called for their side effects on the input only)."""
+    rng = ctx.rng
+    cases = []
+
+    def add(fam, case):
+        case.setdefault("seed", rng.getrandbits(31))
+        cases.append(case)
+        ctx.count("branch:" + fam)
+
+    def small(name):
+        spec = REG[name]
+        if isinstance(spec, Dense):
+            return {"n": max(2, spec.nmin)}
+        if name == "MixedInitialize":
+            return {"n": 2, "k": 2, "classical": True, "reset": False}
+        return {"n": 3, "m": 3}
+
+    inits = [n for n, sp in REG.items() if sp.kind != "gate"]
+    # (1) explicit label: constructor keeps it, inverse() appends "_dg", width unchanged
+    for name in inits:
+        p = dict(small(name), label="L15")
+        add("label given", {"kind": "inverse", "cls": name, "p": p})
+        add("label given", {"kind": "width", "cls": name, "p": p})
+    add("label given", {"kind": "inverse", "cls": "MixedInitialize",
+                        "p": {"n": 2, "k": 3, "classical": False, "reset": False, "label": "L15"}})
+    # (2) operand types of the state vector
+    for name in inits:
+        spec = REG[name]
+        if not isinstance(spec, Dense):
+            continue
+        n = max(2, spec.nmin)
+        w = {"BdspInitialize": 3, "DcspInitialize": 3, "BlackBoxInitialize": 3}.get(name, n)    # widths at n = 2
+        for vec in ("npint", "f32", "list"):
+            p = {"n": n, "vec": vec}
+            m = w + 1
+            add("vector type " + vec, {"kind": "place", "cls": name, "p": p, "m": m, "subset": random_subset(rng, m, w),
+                                       "entry": "initialize", "style": "int"})
+            add("vector type " + vec, {"kind": "pure", "cls": name, "p": p})
+        # (3) zero amplitudes (quick tier: the main sweep draws Haar vectors only)
+        for vec, nn in (("basis", n), ("sparse", n), ("sparse", 3), ("basis", 3)):
+            if nn < spec.nmin or (nn == 3 and name in ("BdspInitialize", "DcspInitialize")):
+                continue
+            ww = {"BdspInitialize": 3, "DcspInitialize": 3, "BlackBoxInitialize": nn + 1}.get(name, nn)
+            m = ww + 1
+            add("vector with zeros " + vec, {"kind": "place", "cls": name, "p": {"n": nn, "vec": vec}, "m": m,
+                                             "subset": random_subset(rng, m, ww), "entry": "append", "style": "int"})
+    # zero amplitudes with a target state other than |0..0> (UCG's diagonal operator for target bit '1')
+    for name in ("UCGInitialize", "UCGEInitialize"):
+        for vec, nn in (("basis", 2), ("sparse", 3), ("basis", 3)):
+            p = {"n": nn, "vec": vec, "opt": {"target_state": 2 ** nn - 1, "preserve_previous": False}}
+            add("vector with zeros, target_state given", {"kind": "place", "cls": name, "p": p, "m": nn + 1,
+                                                          "subset": random_subset(rng, nn + 1, nn), "entry": "initialize",
+                                                          "style": "int"})
+    for vec in ("npint", "f32"):
+        p = {"n": 2, "k": 2, "classical": True, "reset": False, "vec": vec}
+        add("mixed ensemble type " + vec, {"kind": "width", "cls": "MixedInitialize", "p": p})
+        add("mixed ensemble type " + vec, {"kind": "pure", "cls": "MixedInitialize", "p": p})
+    # (4) option dictionaries without the width-relevant key, FnPoints defaults
+    for n, m_ in ((3, 3), (4, 5)):
+        for name, opt, w in (("PivotInitialize", {}, n), ("CvoqramInitialize", {"mcg_method": "linear"}, 2 * n)):
+            p = {"n": n, "m": m_, "opt": opt}
+            add("opt_params without the width key", {"kind": "width", "cls": name, "p": p})
+            if w + 1 <= 8:
+                add("opt_params without the width key",
+                    {"kind": "place", "cls": name, "p": p, "m": w + 1, "subset": random_subset(rng, w + 1, w),
+                     "entry": "initialize", "style": "int"})
+        for how in ("none", "empty"):
+            p = {"n": n, "m": m_, "fnopt": how}
+            add("FnPoints n_output_values default (" + how + ")", {"kind": "width", "cls": "FnPointsInitialize", "p": p})
+            if n == 3:
+                add("FnPoints n_output_values default (" + how + ")",
+                    {"kind": "place", "cls": "FnPointsInitialize", "p": p, "m": 8, "subset": random_subset(rng, 8, 7),
+                     "entry": "initialize", "style": "int"})
+                add("FnPoints n_output_values default (" + how + ")", {"kind": "pure", "cls": "FnPointsInitialize", "p": p})
+    # (5) estimate branches of the cnot_count functions (inputs untouched, same answer twice)
+    for n in (1, 2, 3, 4):
+        for scheme, iso, a2 in (("qsd", 0, True), ("qsd", 0, False), ("csd", 0, True), ("qsd", 1, True), ("qsd", 1, False),
+                                ("qsd", n, True)):
+            add("unitary.cnot_count estimate", {"kind": "purefn", "fn": "unitary.cnot_count",
+                                                "p": {"n": n, "scheme": scheme, "method": "estimate", "iso": iso, "a2": a2}})
+        for scheme in ("ccd", "knill", "csd"):
+            for mc, vector in ((0, True), (0, False), (n // 2, False), (n, False)):
+                add("isometry.cnot_count estimate", {"kind": "purefn", "fn": "isometry.cnot_count",
+                                                     "p": {"n": n, "scheme": scheme, "mcols": mc, "method": "estimate",
+                                                           "vector": vector}})
+    for p in ({"n": 3, "vec": "product"}, {"n": 4, "vec": "haar", "lr": 1}, {"n": 5, "vec": "haar", "lr": 2, "part": [0, 1, 2]},
+              {"n": 5, "vec": "haar", "part": [0, 1, 2, 3]}, {"n": 4, "vec": "basis"}):
+        add("lowrank.cnot_count rank / partition", {"kind": "purefn", "fn": "lowrank.cnot_count", "p": p})
+    return cases
+
+
 # ---- probes of oddities found while building this check (narrow keys, see the final report)
 
 def probes(ctx):
@@ -1452,6 +1625,8 @@ def run(ctx):
         run_case(ctx, {"kind": "alphabet", "seed": ctx.rng.getrandbits(31), "nq": ctx.rng.choice([2, 3, 4, 5, 6]),
                        "len": ctx.rng.choice([3, 8, 15])})
     for case in oracle_cases(ctx):
+        run_case(ctx, case)
+    for case in branch_cases(ctx):
         run_case(ctx, case)
     probe_pivot_aux(ctx)
     probes(ctx)
